@@ -219,8 +219,13 @@ fn op_build<T: Kind>(req: &Value) -> Value {
     if via == "new" {
         return result_json::<T>(GenericPurl::<T>::new(ty, unhex(&req["name"])));
     }
-    let mut b: GenericPurlBuilder<T> =
-        if via == "builder" { GenericPurl::<T>::builder(ty, unhex(&req["name"])) } else { GenericPurlBuilder::new(ty, unhex(&req["name"])) };
+    let mut b: GenericPurlBuilder<T> = if via == "parsed" {
+        // edit-and-rebuild: `pkg:<type>/ns/n@1?a=1&c=3#s` parsed and turned back into a builder
+        match T::parse(&format!("pkg:{}/ns/n@1?a=1&c=3#s", unhex(&req["type"]))) {
+            Some(Ok(p)) => p.into_builder(),
+            _ => return json!({"unsupported": "base PURL does not parse"}),
+        }
+    } else if via == "builder" { GenericPurl::<T>::builder(ty, unhex(&req["name"])) } else { GenericPurlBuilder::new(ty, unhex(&req["name"])) };
     for st in req["steps"].as_array().map(|v| v.as_slice()).unwrap_or(&[]) {
         let op = st[0].as_str().unwrap();
         let a = |i: usize| unhex(&st[i]);
